@@ -14,7 +14,7 @@ CFG={
  "C14":("rpDecode(t); rpScan(t); rpFlush(t)","an INDEPENDENT decoder of the v4 layout (root record framing and JSON, 52-byte node records, 16-byte item headers; children and items before their parent; exact aggregates in every node record) reconstructs, after every Flush of 8 pseudo-random multi-collection histories, exactly the store's state; "+SCAN+"; "+FLUSH),
  "C09":("rpFlush(t); rpScan(t); rpLazy(t)",FLUSH+"; opening any of the corpus files writes nothing"),
  "C08":("rpRevert(t)","8 pseudo-random histories of 2..5 flushes over two collections (values up to 700 bytes, a removed collection), unflushed changes on top, then FlushRevert step by step down to the empty store and once more: file length, store contents and re-opened contents equal the state of the flush reverted to; FlushRevert on the empty store returns; memory-only stores refuse"),
- "C17":("rpNeutral(t)","one fixed pseudo-random history of 80 steps (SetItem incl. nil values, Delete, Flush, close + re-open, eviction; after each step Get, Exist, GetTotals and a full visit) played without callbacks and with 6 subsets of neutral callbacks: the traces of everything observable, and the final file length, must be identical"),
+ "C17":("rpNeutral(t)","one fixed pseudo-random history of 80 steps (SetItem incl. nil values, Delete, Flush, close + re-open, eviction; after each step Get, Exist, GetTotals and a full visit) played without callbacks, with 6 subsets of neutral callbacks, and with a RECYCLING reference counter (ItemAlloc/ItemAddRef/ItemDecRef that overwrite an item's key and value bytes when its count returns to zero, as a pooling allocator reusing the buffers would): the traces of everything observable (incl. Len, a block visit and MinItem every fifth step), and the final file length, must be identical"),
  "C19":("rpLazy(t)","stores of 1, 3, 9, 40 persisted items re-opened through a file that records every ReadAt: opening issues at most 2 reads; GetItem(key-only), Exist, MinItem/MaxItem, Len, key-only visits in both directions, Set, Delete, GetTotals touch no byte of any item's value (value ranges taken from the item locations of the real tree)"),
  "C07":("rpFaults(t)","a persisted store of 9 items; for every k in 1..14 the k-th StoreFile call (ReadAt, WriteAt with a torn half write, Stat) fails once during: open, GetItem, Get, a visit with values, MinItem, GetTotals, Len, Set, Set of a new key, Delete, Set+Flush, a Flush of three new items, FlushRevert. Required: an error whenever the fault was hit (never success with wrong or older data), no panic, no hang; after a failed read the same store still answers everything correctly; after a failed mutation/Flush the file re-opens to the last flushed state and a retried change is durable; a Flush that failed at any of its file calls is retried ON THE SAME in-memory store once the file works again, must succeed, and the file must then re-open to the store's full contents (the store is re-opened after a failed mutation: marks left behind are the recorded finding D6; Exist is not probed: recorded finding D9)"),
 }
